@@ -37,7 +37,7 @@ VALUE_FAMILY_NAMES = {"ValueError", "UnicodeDecodeError", "UnicodeEncodeError", 
 COMMANDS = ["nesting", "srp", "magic-numbers", "dry", "improper-logging", "print-statements", "file-header", "file-placement", "lazy-ignores",
             "lbyl", "method-property", "perf", "pipeline", "regex-in-loop", "stateless-class", "string-concat-loop", "stringly-typed",
             "unwrap-abuse", "clone-abuse", "blocking-async"]
-CLI_WALL_LIMIT = 300.0
+CLI_WALL_LIMIT = 150.0
 CORPUS = VERIF / "corpus" / PROP
 
 
@@ -102,6 +102,50 @@ def corpus_cases():
     return out
 
 
+def grid_cases(seed: int, rounds: int = 1):
+    """every linter (its documented examples, per language) x every mutation class, plus the other properties' generators x the
+    token-level classes, plus `drop the last path segment everywhere` on every chunk: sampled from one PRNG chain, but each
+    (linter, class) pair is hit in every run"""
+    from harness.props import c11_seeds
+    groups, notes = c11_seeds.all_groups(seed)
+    out = []
+    for rd in range(rounds):
+        for (who, lang), chunks in sorted(groups.items()):
+            is_gen = who.startswith("gen:")
+            r0 = rng_for(seed, PROP, "grid-classes", rd, who, lang)
+            classes = (c11_mut.TOKEN_CLASSES + r0.sample(c11_mut.GRID_CLASSES[:9], 2)) if is_gen else c11_mut.GRID_CLASSES
+            for cls in classes:
+                r = rng_for(seed, PROP, "grid", rd, who, lang, cls)
+                j = r.randrange(len(chunks))
+                off = c11_mut.offender_from(r, cls, lang, chunks[j].encode("utf-8"))
+                off["kind"] = f"{who}#{j}:{off['kind']}"
+                out.append(_mk_case(f"grid{rd}:{who}:{lang}:{cls}", off, r.choice(["default", "dry"]), r.choice(["files", "files", "dir"]), r.randrange(20)))
+            if rd == 0:
+                for j, ch in enumerate(chunks):
+                    r = rng_for(seed, PROP, "grid-path", who, lang, j)
+                    off = c11_mut.offender_from(r, "path-segment", lang, ch.encode("utf-8"), variant="drop-last", mode="all")
+                    off["kind"] = f"{who}#{j}:{off['kind']}"
+                    out.append(_mk_case(f"grid-path:{who}:{lang}:{j}", off, "default", "files", j))
+    return out, notes
+
+
+def literal_and_comment_sweeps(seed: int, thin: bool):
+    """deterministic: every numeric spelling in every language; every directive / header / doc-comment form x every payload shape"""
+    out = []
+    for lang in c11_mut.LANGS:
+        off = {"cls": "numeric-literal", "kind": "sweep:all-spellings", "lang": lang, "name": "case" + c11_pool.EXT[lang], "data": c11_mut.numeric_sweep(lang)}
+        out.append(_mk_case(f"numsweep:{lang}", off, "default", "files", 2))
+        forms = c11_mut.forms_for(lang)
+        for k, form in enumerate(forms):
+            if thin and lang == "js" and k % 2:
+                continue      # js and ts share the analyzers: the quick tier runs every other form for js
+            r = rng_for(seed, PROP, "comment-sweep", lang, k)
+            off = {"cls": "comment-payload", "kind": "sweep:" + form.split("{")[0].strip()[:30], "lang": lang, "name": "case" + c11_pool.EXT[lang],
+                   "data": c11_mut.comment_sweep(lang, form, r)}
+            out.append(_mk_case(f"cmtsweep:{lang}:{k}", off, "dry" if k % 3 == 0 else "default", "files", k))
+    return out
+
+
 def gen_stream_cases(seed: int, n: int):
     out = []
     for i in range(n):
@@ -136,6 +180,10 @@ def judge_stream(chk: Check, case, res, healthy_rules):
     if res is None:
         chk.violation({"reason": "no result came back for this case (harness lost it)", **info})
         return True
+    if res.get("skipped"):
+        if not any("skipped after" in n for n in chk.notes):
+            chk.notes.append(f"stream cases were skipped after {c11_stream.MAX_HANGS} hangs (each hang is reported)")
+        return False
     if res.get("harness_error"):
         chk.violation({"reason": "worker process died outside a case: " + res["harness_error"], "detail": res, **info})
         return True
@@ -442,7 +490,7 @@ def run(tier: str, seed: int, replay: str | None = None) -> int:
         "raise, hang nor exhaust the stack on a given byte string - established only for the generated mutation stream of this run",
         "hook H1 (_verif_failure_tap in src/orchestrator/core.py) as the observer of swallowed exceptions; theorem C11_failure_log_complete shows the "
         "model's three containment sites log every swallowed failure, that the code has no fourth site is checked by the generated shape items",
-        "the 'hang' clause is a CPU-time limit (3 s + 30 us/byte per run of 10 files in-process, worker killed after 150 CPU s; 300 s wall per CLI command)",
+        "the 'hang' clause is a CPU-time limit (3 s + 30 us/byte per run of 10 files in-process, worker killed after 100 CPU s; 150 s wall per CLI command)",
         "finalize() is assumed not to raise (hypothesis final_safe of the theorems; no input making it raise was found; C11_finalize_failure_crashes "
         "states what happens otherwise)",
     ]
@@ -454,13 +502,15 @@ def run(tier: str, seed: int, replay: str | None = None) -> int:
     quick = tier == "quick"
     n_stub = (220 if quick else 2200) * scale
     n_detect = (240 if quick else 2400) * scale
-    n_stream = (400 if quick else 6000) * scale
+    n_stream = (90 if quick else 4000) * scale
     n_cli = 40 if quick else 400
     c11_mut.BIG = not quick
     with scratch_dir("tv-c11-") as sd:
         if replay:
             return _replay(chk, replay, seed, sd)
-        stream_cases = corpus_cases() + sweep_cases() + gen_stream_cases(seed, n_stream)
+        grid, gnotes = grid_cases(seed, 1 if quick else 6)
+        chk.notes.extend(gnotes)
+        stream_cases = corpus_cases() + sweep_cases() + literal_and_comment_sweeps(seed, quick) + grid + gen_stream_cases(seed, n_stream)
         results, baselines = {}, {}
 
         def go():
@@ -527,7 +577,9 @@ def _replay(chk: Check, replay: str, seed: int, sd: Path) -> int:
     part = case.get("part")
     if part in ("stream", "cli") and str(case.get("data_b64", "")).startswith("(too large"):
         chk.notes.append("replay of a large case: regenerated from seed and id")
-        cands = [c for c in corpus_cases() + sweep_cases() + gen_stream_cases(doc.get("seed", seed), 8000) if c["id"] == case.get("id")]
+        sd0 = doc.get("seed", seed)
+        cands = [c for c in corpus_cases() + sweep_cases() + literal_and_comment_sweeps(sd0, False) + grid_cases(sd0, 6)[0] + gen_stream_cases(sd0, 8000)
+                 if c["id"] == case.get("id")]
         sc = cands[:1]
     elif part in ("stream", "cli"):
         off = {"cls": case["cls"], "kind": case["kind"], "lang": case["lang"], "name": case["name"], "data": base64.b64decode(case["data_b64"])}
